@@ -108,6 +108,8 @@ def run_case(case):
                         raise Violation(f"partition-default-threshold:{fmt}", f"{what}: tier {t['name']!r} {ents} is not a partition of [{got['xmin']!r},{got['xmax']!r}]")
             if gen.min_gap(spec) < 1e-8:
                 cl.add("sliver_with_default_threshold")
+            if any(t["type"] == "interval" and t["entries"] and t["entries"][0][1] <= 4e-9 for t in spec["tiers"]):
+                cl.add("leading_slivers")
         a, b = decoded[("short_textgrid", blanks)], decoded[("long_textgrid", blanks)]
         if a != b:
             raise Violation("formats-disagree:short-vs-long", f"blanks={blanks}: {a} != {b}")
@@ -130,6 +132,15 @@ def cases(draw):
             spec["maxT"] = hi
             for t in spec["tiers"]:
                 t["maxT"] = hi
+    if clean and spec["minT"] == 0 and draw(st.integers(0, 5)) == 0:
+        # an interval tier that opens with one or two intervals shorter than the default sliver threshold
+        for t in spec["tiers"]:
+            if t["type"] == "interval" and (not t["entries"] or t["entries"][0][0] > 1e-6) and spec["maxT"] > 1e-6:
+                lead = [[2e-9, 4e-9, "c"]] + ([[4e-9, 7e-9, "d"]] if draw(st.booleans()) else [])
+                if draw(st.booleans()):
+                    lead = [[0.0, 2e-9, "b"]] + lead
+                t["entries"] = lead + t["entries"]
+                break
     if r in (0, 1):
         case["max_override"] = draw(st.sampled_from([spec["maxT"], spec["maxT"] + 1.0, spec["maxT"] * 2 + 0.5]))
         if not case["max_override"] >= spec["maxT"]:
